@@ -206,6 +206,7 @@ partial def parseVal : List String → Val × List String
         let (xs, rest'') := parseVals [] rest'
         (.anys xs, rest'')
       | _ => (.nil, [])
+    else if c == 'O' then (.opv (parseOp body), rest)
     else if c == 'i' then (.leaf (.int (toInt body)), rest)
     else if c == 's' then (.leaf (.str (unhx body)), rest)
     else if c == 'b' then (.leaf (.bool (body == "1")), rest)
@@ -224,6 +225,64 @@ partial def parseVal : List String → Val × List String
     else (.nil, rest)
 end
 
+/-- inverse of `parseCfg` (library-internal error classes ≥ 1000 all print as 1: "some error") -/
+def showCfg (c : Cfg) (isCond : Bool := false) : String :=
+  let parts : List String :=
+    (if c.kind != 0 && !isCond then [s!"k={c.kind}"] else []) ++
+    (if c.cap != 0 then [s!"c={c.cap - 1}"] else []) ++
+    (if c.opt != 0 then [s!"o={c.opt}"] else []) ++
+    (if c.fifo then ["f=1"] else []) ++
+    (if !c.sym.isEmpty then [s!"sym={hx c.sym}"] else []) ++
+    (if !c.ljc.isEmpty then [s!"d={hx c.ljc}"] else []) ++
+    (if !c.enc.isEmpty then ["e=" ++ "|".intercalate (c.enc.map (fun e => "/".intercalate (e.map hx)))] else []) ++
+    (if !c.id.isEmpty then [s!"id={hx c.id}"] else []) ++
+    (if !c.cat.isEmpty then [s!"cat={hx c.cat}"] else []) ++
+    (match c.err with | some e => [s!"err={if e ≥ 1000 then 1 else e}"] | none => []) ++
+    (if c.mtx then ["mtx=1"] else []) ++
+    (match c.ppf with | some p => [s!"ppf={p}"] | none => []) ++
+    (match c.vpf with | some p => [s!"vpf={p}"] | none => []) ++
+    (match c.rpf with | some p => [s!"rpf={p}"] | none => []) ++
+    (match c.eqf with | some p => [s!"eqf={p}"] | none => []) ++
+    (match c.umf with | some p => [s!"umf={p}"] | none => []) ++
+    (match c.maf with | some p => [s!"maf={p}"] | none => []) ++
+    (match c.evl with | some p => [s!"evl={p}"] | none => [])
+  if parts.isEmpty then "-" else ",".intercalate parts
+
+/-- inverse of `parseEV` -/
+partial def showEV : EV → String
+  | .prim ty t n => s!"p{ty}:{hx t}:{if n then 1 else 0}"
+  | .named ty t => s!"t{ty}:{hx t}"
+  | .uptr u n => s!"u{if u then 1 else 0}:{n}"
+  | .nilptr ty => s!"z{ty}"
+  | .ptr ty e => s!"P {ty} {showEV e}"
+  | .seq a ety cap xs => (s!"Q {if a then "a" else "s"} {ety} {cap} [ " ++ " ".intercalate (xs.map showEV)).trimAsciiEnd.toString ++ " ]"
+  | .map ty ks vs => (s!"M {ty} [ " ++ " ".intercalate ((ks.zip vs).map (fun p => s!"{showEV p.1} {showEV p.2}"))).trimAsciiEnd.toString ++ " ]"
+  | .struct ty fs vs =>
+      (s!"T {ty} [ " ++ " ".intercalate ((fs.zip vs).map (fun p =>
+        s!"{hx p.1.name}:{if p.1.exported then "e" else "p"}:{if p.1.anon then "a" else "n"} {showEV p.2}"))).trimAsciiEnd.toString ++ " ]"
+  | .func ty id => s!"f{ty}:{id}"
+  | .chan ty id => s!"c{ty}:{id}"
+  | .inil => "I"
+  | .iface e => s!"J {showEV e}"
+
+/-- inverse of `parseVal` -/
+partial def showVal : Val → String
+  | .nil => "N"
+  | .leaf (.int i) => s!"i{i}"
+  | .leaf (.str s) => s!"s{hx s}"
+  | .leaf (.bool b) => if b then "b1" else "b0"
+  | .leaf (.num ty t) => s!"n{ty}:{hx t}"
+  | .leaf (.stringer id t z) => s!"g{id}:{hx t}:{if z then 1 else 0}"
+  | .leaf (.opaque cls id) => s!"o{cls}:{id}"
+  | .leaf (.ev e) => showEV e
+  | .stk f c xs => (s!"K {Form.str f} {showCfg c} [ " ++ " ".intercalate (xs.map showVal)).trimAsciiEnd.toString ++ " ]"
+  | .cnd f c kw op ex => s!"C {Form.str f} {showCfg c true} {hx kw} {Op.str op} {showVal ex}"
+  | .zstk f => s!"Z {Form.str f}"
+  | .zcnd f => s!"Y {Form.str f}"
+  | .anys xs => ("A [ " ++ " ".intercalate (xs.map showVal)).trimAsciiEnd.toString ++ " ]"
+  | .opv .none => "N"           -- a nil Operator in an `any` is just nil
+  | .opv o => s!"O{Op.str o}"
+
 def words (s : String) : List String := (s.splitOn " ").filter (· ≠ "")
 
 /-- short form of an observed element (mirrors harness `Short`) -/
@@ -241,6 +300,7 @@ def short : Val → String
   | .anys xs => s!"A#{xs.length}"
   | .zstk _ => "?"
   | .zcnd _ => "?"
+  | .opv o => s!"O{Op.str o}"
 
 def b01 (b : Bool) : String := if b then "1" else "0"
 
